@@ -24,7 +24,7 @@ LastOf(s) == s[Len(s)]
 
 HasPrefix(s, p) == Len(p) <= Len(s) /\ SubSeq(s, 1, Len(p)) = p
 HasSuffix(s, p) == Len(p) <= Len(s) /\ SubSeq(s, Len(s) - Len(p) + 1, Len(s)) = p
-Contains(s, c) == \E i \in DOMAIN s : s[i] = c
+HasChar(s, c) == \E i \in DOMAIN s : s[i] = c
 
 \* split s on the separator c: a non-empty sequence of (possibly empty) pieces
 RECURSIVE SplitOn(_, _)
@@ -52,6 +52,12 @@ RECURSIVE SeqsOfLen(_, _)
 SeqsOfLen(A, n) ==
   IF n = 0 THEN {<<>>} ELSE {Append(t, c) : t \in SeqsOfLen(A, n - 1), c \in A}
 SeqsUpTo(A, n) == UNION {SeqsOfLen(A, k) : k \in 0..n}
+
+\* all subsets of S with at most k elements (the library kSubset is limited to |S| <= 62)
+RECURSIVE SubsetsUpTo(_, _)
+SubsetsUpTo(S, k) ==
+  IF k = 0 THEN {{}}
+  ELSE LET P == SubsetsUpTo(S, k - 1) IN P \cup {s \cup {a} : s \in P, a \in S}
 
 Digits == {"0","1","2","3","4","5","6","7","8","9"}
 Lower  == {"a","b","c","d","e","f","g","h","i","j","k","l","m","n","o","p","q","r","s","t","u","v","w","x","y","z"}
